@@ -110,6 +110,10 @@ func fsClasses(c fsCase) (bool, []string) {
 	nt := false
 	if c.Fault != nil {
 		cl = append(cl, "kind_"+c.Fault.Kind, "dir_"+c.Fault.Dir, "pos_"+c.Fault.Pos)
+		if c.NoClientPings && c.Fault.Kind == "blackhole" {
+			cl = append(cl, "blackhole_without_client_pings")
+			nt = true
+		}
 		if c.Fault.Pos == "header" || c.Fault.Pos == "mid" || c.Fault.Pos == "last" {
 			cl = append(cl, "fault_inside_frame")
 			nt = true
@@ -158,7 +162,7 @@ func runC03(c fsCase) (*Violation, *fsOutcome) {
 	return nil, o
 }
 
-const c03Rule = "workloads of 2-8 token calls {gated unary, immediate unary, multi-frame result, subscription, notification, retry-tagged} x fault {FIN, RST, blackhole} x direction x frame index x position {before, inside header, mid-payload, before last byte, after} x further calls issued right after the fault, inside the reconnect window (client held there by the dial wrapper) and after heal x optional second fault on the new connection. Grid: fixed workloads x dir x frame x pos x kind (sampled in quick, complete in thorough). Non-trivial = fault strictly inside a frame, or a call issued inside the reconnect window, or a double fault; distinct by descriptor hash"
+const c03Rule = "workloads of 2-8 token calls {gated unary, immediate unary, multi-frame result, subscription, notification, retry-tagged} x fault {FIN, RST, WebSocket close frame, blackhole (against clients with and without pings of their own)} x direction x frame index x position {before, inside header, mid-payload, before last byte, after} x further calls issued right after the fault, inside the reconnect window (client held there by the dial wrapper) and after heal x optional second fault on the new connection. Grid: fixed workloads x dir x frame x pos x kind (sampled in quick, complete in thorough). Non-trivial = fault strictly inside a frame, or a call issued inside the reconnect window, or a double fault; distinct by descriptor hash"
 
 func TestC03(t *testing.T) {
 	rec := NewRec("C03", c03Rule)
@@ -253,6 +257,12 @@ func TestC03(t *testing.T) {
 				}
 			}
 		}
+		// silent stalls noticed by the read deadline alone: a client that sends no pings of its own
+		if sh == 0 {
+			for i, pos := range []string{"before", "mid", "after"} {
+				run(t, fsCase{Calls: c03Workload("w1"), NoClientPings: true, Fault: &Fault{Dir: faultDirs[i%2], Frame: 1 + i%2, Pos: pos, Kind: "blackhole"}})
+			}
+		}
 		// double faults: second fault on the re-established connection
 		for i, pos := range faultPos {
 			if !thorough() && i%2 == 1 {
@@ -277,6 +287,9 @@ func TestC03(t *testing.T) {
 			}
 		}
 		c.Fault = genFault(rt, "f1", npre+1)
+		if c.Fault.Kind == "blackhole" {
+			c.NoClientPings = rapid.Bool().Draw(rt, "noclientpings")
+		}
 		if rapid.IntRange(0, 6).Draw(rt, "noreconnect") == 0 {
 			c.NoReconnect = true
 		}
